@@ -418,6 +418,10 @@ func genProgram(rng *rand.Rand, kind string) *Program {
 	if colon {
 		layouts = []string{"x", "x:y"}
 		views = []string{"a", "y:a"}
+	} else if rng.Intn(7) == 0 {
+		// ordinary directory names with dots inside a segment, next to their dot-less twins
+		layouts = []string{"site", "site..v2", "sitev2"}[rng.Intn(2):]
+		views = []string{"draft1", "draft..1", "a.b", "ab"}[:2+rng.Intn(3)]
 	} else {
 		lp := []string{"default", "l1", "deep/er", "sp ace", "ü"}
 		rng.Shuffle(len(lp), func(i, j int) { lp[i], lp[j] = lp[j], lp[i] })
